@@ -5,7 +5,7 @@ from check import Suite
 from props.commands import *
 
 def gen_histories(tier, rng):
-    n = 700 if tier == "quick" else 60000
+    n = 700 if tier == "quick" else 40000
     out = []
     for _ in range(n):
         doc, cfg, steps = make_history(rng)
